@@ -2,6 +2,7 @@ package encoder
 
 import (
 	"bytes"
+	"context"
 	"encoding"
 	"encoding/base64"
 	"encoding/json"
@@ -442,6 +443,16 @@ func isValidNumber(s string) bool {
 	return s == ""
 }
 
+// marshalerContextOf returns the context to hand to a context-aware MarshalJSON: the one given to
+// this call, or context.Background() when the call has none. The pooled RuntimeContext may still hold
+// the context of an earlier MarshalContext call, which must not leak into this one.
+func marshalerContextOf(ctx *RuntimeContext) context.Context {
+	if (ctx.Option.Flag&ContextOption) == 0 || ctx.Option.Context == nil {
+		return context.Background()
+	}
+	return ctx.Option.Context
+}
+
 func AppendMarshalJSON(ctx *RuntimeContext, code *Opcode, b []byte, v interface{}) ([]byte, error) {
 	rv := reflect.ValueOf(v) // convert by dynamic interface type
 	if (code.Flags & AddrForMarshalerFlags) != 0 {
@@ -465,7 +476,7 @@ func AppendMarshalJSON(ctx *RuntimeContext, code *Opcode, b []byte, v interface{
 		if !ok {
 			return AppendNull(ctx, b), nil
 		}
-		stdctx := ctx.Option.Context
+		stdctx := marshalerContextOf(ctx)
 		if ctx.Option.Flag&FieldQueryOption != 0 {
 			stdctx = SetFieldQueryToContext(stdctx, code.FieldQuery)
 		}
@@ -518,7 +529,7 @@ func AppendMarshalJSONIndent(ctx *RuntimeContext, code *Opcode, b []byte, v inte
 		if !ok {
 			return AppendNull(ctx, b), nil
 		}
-		b, err := marshaler.MarshalJSON(ctx.Option.Context)
+		b, err := marshaler.MarshalJSON(marshalerContextOf(ctx))
 		if err != nil {
 			return nil, &errors.MarshalerError{Type: reflect.TypeOf(v), Err: err}
 		}
